@@ -41,6 +41,15 @@ def plan(plan, tier, seed):
         plan.verus.append(VerusUnit("c16_match", unit, {"match_arms": n4}, ["canary_match"]))
     except AnchorLost as e:
         plan.anchor_errors.append((n4, str(e)))
+    n5 = "C16.verus.try_broadcast_user_function.elementwise_over_a_matrix"
+    plan.ob(n5, "verus", "proved", functions=["try_broadcast_user_function (whole body)"],
+            what="a function with one input and one output of the same scalar kind, called with one matrix argument, returns the matrix of the source's shape assembled from the function applied to each element -- each element once, in element order; an error in any application is an error; in every other situation the broadcast does not apply (and applies the function to nothing)")
+    try:
+        unit = vlib.verus_file([vC16._bcast_model(), vC16.bcast_fn(text, feats), vlib.verus_canary("canary_bcast", "x: u64", [])])
+        plan.verus.append(VerusUnit("c16_bcast", unit, {"try_broadcast_user_function": n5}, ["canary_bcast"]))
+    except AnchorLost as e:
+        plan.anchor_errors.append((n5, str(e)))
+    plan.dropped.append(vC16.bcast_fn.__doc__.strip())
     plan.dropped.append(vC16.match_arms_fn.__doc__.strip())
     plan.dropped.append(vC16.guard_fn.__doc__.strip())
     plan.functions += ["src/interpreter/src/functions.rs: execute_function_match_arms (arm loop), execute_user_function (arity guard)",
@@ -54,5 +63,5 @@ def plan(plan, tier, seed):
         "`#[cfg(..)]` attributes inside the match_expression guard are evaluated for the default feature set read from src/interpreter/Cargo.toml (closure of `default`); the pattern matcher reads and extends the environment it is given, 'matches' in the property = matches in a fresh environment",
     ]
     plan.assumptions += ["match_expression arm loop: pattern_matches_value_with_semantics, guard_expression_true, expression, match_validate_arm_kinds are arbitrary functions (contracts/C16/matchmodel.rs); `detached_source` / `base_env` (computed above the loop) are parameters; nothing is claimed when the option/matrix coalescing case applies to the selected arm, nor when the guard of an earlier NON-matching arm fails to evaluate (the code evaluates such guards and reports their failure; the property is silent)"]
-    plan.undecided_clauses += ["C16: of match *expressions*: the statements above the arm loop (source evaluation, the Empty / wildcard pre-check), the option/matrix coalescing case, match_validate_arm_kinds and infer_missing_enum_match_patterns themselves; what the recurrence computes (tail-call loop of execute_user_function: no termination claim), element-wise broadcast over a matrix argument, the exhaustiveness pre-check of execute_function_match_arms, pattern_matches_value itself"]
+    plan.undecided_clauses += ["C16: of match *expressions*: the statements above the arm loop (source evaluation, the Empty / wildcard pre-check), the option/matrix coalescing case, match_validate_arm_kinds and infer_missing_enum_match_patterns themselves; what the recurrence computes (tail-call loop of execute_user_function: no termination claim), the exhaustiveness pre-check of execute_function_match_arms, pattern_matches_value itself"]
     plan.level = "proof"
